@@ -34,7 +34,7 @@ def ds_replay(ck, behaviours, label):
     ck.count(1, key=["ds", c["mode"], c["S"], c["P"], c["Start"], c["sched"], c["End"]])
     env_dev += r["env_dev"]
     for k, v in r["worst"].items():
-      ck.calib(k, v, {"stats_twin": 1e-5, "stats_twin_int16": 1e-3, "precs_twin": 1e-3, "warmup_twin": 1e-6}[k])
+      ck.calib(k, v, {"stats_twin": 1e-5, "stats_twin_int16": 1e-3, "precs_twin": 1e-3, "precs_twin_int16": 3e-2, "warmup_twin": 1e-6}[k])
     if r["mismatches"]:
       m = r["mismatches"][0]
       ck.violation(f"ds|{c['mode']}|{m['clause']}",
